@@ -307,8 +307,40 @@ ExportImport_E(s, e) == s
 ExportImport_R(s, e) == [same |-> TRUE]
 
 ----------------------------------------------------------------------------
+(* gRPC queries (keeper/querier.go).  A query never changes state; the specification fixes its answer.  *)
+(* Paginated queries take offset / limit / reverse (limit 0 = the SDK default of 100 items).            *)
+RECURSIVE SortedIdx(_)
+SortedIdx(S) == IF S = {} THEN << >> ELSE LET m == CHOOSE x \in S : \A y \in S : x <= y IN <<m>> \o SortedIdx(S \ {m})
+Rev(q) == [i \in 1..Len(q) |-> q[Len(q) + 1 - i]]
+Page(q, offset, limit, reverse) ==
+  LET ord == IF reverse THEN Rev(q) ELSE q
+      lim == IF limit = 0 THEN 100 ELSE limit
+      from == offset + 1
+      to == IF offset + lim < Len(ord) THEN offset + lim ELSE Len(ord)
+  IN IF from > Len(ord) THEN << >> ELSE SubSeq(ord, from, to)
+(* total reported by the SDK's collection pagination: the number of items, except that an offset beyond the end yields 0 *)
+Total(q, offset) == IF offset > Len(q) THEN 0 ELSE Len(q)
+OutIdxSeq(s, b) == SortedIdx({i \in 0..(s.nextOut[K(b)] + 2) : Has(s.outs[K(b)], K(i))})
+BridgeIdSeq(s) == SortedIdx({n \in 1..16 : Has(s.cfg, K(n))})
+Query_G(s, e) ==
+  [ valid |-> TRUE,
+    found |-> CASE e.q \in {"Bridge", "LastFinalizedOutput"} -> Has(s.cfg, K(e.b))
+                [] e.q = "OutputProposal" -> Has(s.outs, K(e.b)) /\ Has(s.outs[K(e.b)], K(e.idx))
+                [] OTHER -> TRUE ]
+Query_R(s, e) ==
+  CASE e.q = "Bridge" -> [proposer |-> s.cfg[K(e.b)].proposer, challenger |-> s.cfg[K(e.b)].challenger, period |-> s.cfg[K(e.b)].period, addr |-> Esc(e.b)]
+    [] e.q = "Bridges" -> [ids |-> Page(BridgeIdSeq(s), e.offset, e.limit, e.reverse), total |-> Total(BridgeIdSeq(s), e.offset)]
+    [] e.q = "NextL1Sequence" -> [seq |-> IF Has(s.l1seq, K(e.b)) THEN s.l1seq[K(e.b)] ELSE 1]
+    [] e.q = "LastFinalizedOutput" -> [idx |-> LastFinalIdx(s, e.b), l2bn |-> LastFinalOut(s, e.b).l2bn]
+    [] e.q = "OutputProposal" -> [l2bn |-> s.outs[K(e.b)][K(e.idx)].l2bn, t |-> s.outs[K(e.b)][K(e.idx)].t, root |-> s.outs[K(e.b)][K(e.idx)].root]
+    [] e.q = "OutputProposals" -> [idxs |-> Page(OutIdxSeq(s, e.b), e.offset, e.limit, e.reverse), total |-> Total(OutIdxSeq(s, e.b), e.offset)]
+    [] e.q = "BatchInfos" -> [n |-> Len(Page(s.batch[K(e.b)], e.offset, e.limit, e.reverse)), total |-> Total(s.batch[K(e.b)], e.offset)]
+    [] e.q = "TokenPairByL1Denom" -> [l2denom |-> L2DenomOf(e.b, e.denom)]
+
+----------------------------------------------------------------------------
 Guards(s, e) ==
-  CASE e.type = "CreateBridge"            -> CreateBridge_G(s, e)
+  CASE e.type = "Query"                   -> Query_G(s, e)
+    [] e.type = "CreateBridge"            -> CreateBridge_G(s, e)
     [] e.type = "ProposeOutput"           -> ProposeOutput_G(s, e)
     [] e.type = "DeleteOutput"            -> DeleteOutput_G(s, e)
     [] e.type = "InitiateTokenDeposit"    -> InitiateTokenDeposit_G(s, e)
@@ -328,7 +360,8 @@ Guards(s, e) ==
     [] e.type = "ExportImport"            -> ExportImport_G(s, e)
 
 Effect(s, e) ==
-  CASE e.type = "CreateBridge"            -> CreateBridge_E(s, e)
+  CASE e.type = "Query"                   -> s
+    [] e.type = "CreateBridge"            -> CreateBridge_E(s, e)
     [] e.type = "ProposeOutput"           -> ProposeOutput_E(s, e)
     [] e.type = "DeleteOutput"            -> DeleteOutput_E(s, e)
     [] e.type = "InitiateTokenDeposit"    -> InitiateTokenDeposit_E(s, e)
@@ -348,7 +381,8 @@ Effect(s, e) ==
     [] e.type = "ExportImport"            -> ExportImport_E(s, e)
 
 Resp(s, e) ==
-  CASE e.type = "CreateBridge"            -> CreateBridge_R(s, e)
+  CASE e.type = "Query"                   -> Query_R(s, e)
+    [] e.type = "CreateBridge"            -> CreateBridge_R(s, e)
     [] e.type = "ProposeOutput"           -> ProposeOutput_R(s, e)
     [] e.type = "DeleteOutput"            -> DeleteOutput_R(s, e)
     [] e.type = "InitiateTokenDeposit"    -> InitiateTokenDeposit_R(s, e)
